@@ -496,7 +496,7 @@ SHAPES = ["line", "polyline", "polygon", "circle", "ellipse", "rect"]
 
 
 # ------------------------------------------------------------------ driver
-THIRD = "lCsqAz"
+THIRD = "lCsA"
 
 
 def cases(tier, seed):
@@ -518,7 +518,7 @@ def cases(tier, seed):
             for y in LETTERS:
                 cs.append({"kind": "walk", "seq": "M" + x + "z" + y, "sub": True})
     if tier != "quick":
-        for rest in itertools.product(SUB4, SUB4, "zCsQt", "zl"):
+        for rest in itertools.product(SUB4, SUB4, "zCsQt", "z"):
             cs.append({"kind": "walk", "seq": "M" + "".join(rest), "sub": True})
     return cs
 
@@ -622,7 +622,7 @@ def describe(tier):
             "data; every numeric argument is a z3 real; the oracle is an independent SVG path interpreter applied to input and output."
         ),
         "bounds": {
-            "letters_after_initial_moveto": f"all 20^k sequences for k<=2, initial M and m" + ("; plus M{m,M,l,L,q}z{any letter}" if tier == "quick" else "; k=3 after M: 20 x 20 x (l C s q A z); k=4 over MmLlzCcSsQqTt x MmLlzCcSsQqTt x zCsQt x zl"),
+            "letters_after_initial_moveto": f"all 20^k sequences for k<=2, initial M and m" + ("; plus M{m,M,l,L,q}z{any letter}" if tier == "quick" else "; k=3 after M: 20 x 20 x (l C s A); k=4 over MmLlzCcSsQqTt x MmLlzCcSsQqTt x zCsQt x z"),
             "arc_flags": "2 of 4 (large,sweep) pairs per arc (quick) / all 4 (thorough, k<=2)",
             "numbers": "all reals (unbounded); multiple_of > 0; shape sizes >= 0",
             "tolerance": "point equality within 1e-9*(#commands+1) where _rewrite_path may snap; exact elsewhere",
